@@ -281,8 +281,10 @@ class LineRef(Ref):
         s = (np.arange(M) + 0.5) / M * cum[-1]
         k = np.minimum(np.searchsorted(cum, s, side="right"), len(cum) - 1)
         t = ((s - (cum[k] - self.len[k])) / self.len[k])[:, None]
-        p = self.a[k] * (1.0 - t) + self.b[k] * t  # the library's interpolation formula, bit for bit
-        return p if self.accept is None else p[self.accept(p)]
+        if self.accept is None:
+            return self.a[k] + t * (self.b[k] - self.a[k])  # exact in a coordinate both ends share
+        p = self.a[k] * (1.0 - t) + self.b[k] * t  # PolylineRegion's interpolation formula, bit for bit
+        return p[self.accept(p)]
 
 
 class BallRef(Ref):
@@ -384,21 +386,26 @@ class Comp(Ref):
 
 
 class KDCells:
-    """Partition of space into <= 2**depth boxes by recursive median splits of a point sample along
-    its widest axis; adapts to sets of any intrinsic dimension."""
+    """Partition of space into <= 2**depth boxes by recursive near-median splits of a point sample along its
+    widest axis; adapts to sets of any intrinsic dimension.  A cut is always placed in the middle of a gap
+    > 1e-7 between sample coordinates, so points on an axis-aligned face (coordinates equal up to rounding
+    noise) are never separated by it."""
 
     def __init__(self, pts, depth=5):
         self.ncell = 0
         self.tree = self._build(pts, depth)
 
     def _build(self, pts, depth):
-        ax = int(np.ptp(pts, axis=0).argmax()) if len(pts) else 0
-        cut = float(np.median(pts[:, ax])) if len(pts) else 0.0
-        left = pts[:, ax] <= cut
-        if depth == 0 or len(pts) < 8 or left.all() or not left.any():
-            self.ncell += 1
-            return self.ncell - 1
-        return ax, cut, self._build(pts[left], depth - 1), self._build(pts[~left], depth - 1)
+        for ax in (np.argsort(-np.ptp(pts, axis=0)) if depth and len(pts) >= 8 else ()):
+            x = np.sort(pts[:, ax])
+            ok = np.nonzero(np.diff(x) > 1e-7)[0]
+            if len(ok):
+                j = ok[np.abs(ok - len(x) // 2).argmin()]
+                cut = float(x[j] + x[j + 1]) / 2
+                left = pts[:, ax] <= cut
+                return int(ax), cut, self._build(pts[left], depth - 1), self._build(pts[~left], depth - 1)
+        self.ncell += 1
+        return self.ncell - 1
 
     def index(self, P):
         out, stack = np.zeros(len(P), dtype=int), [(self.tree, np.arange(len(P)))]
